@@ -1,3 +1,514 @@
-pub fn main(_a: &vcommon::Args) {
-    unimplemented!()
+//! C15: negotiation message codec and hostile input.
+//!
+//! `msg records <level> <out>`: relation records
+//!   rt    encode_message -> decode_message round trip of generated valid messages (verif hook)
+//!   dec   decode_message on hand-built bodies (counts around MAX_PROTOCOLS, names without '/', ...)
+//!   wire  what the REAL listener / dialer put on the wire (public API): every frame's length-prefix
+//!         size, body size and decoded message
+//! `msg hostile enum|random ..`: traces of the public select functions fed crafted / random bytes,
+//!   then the resulting streams are used some more (read, read again, flush, close).
+use std::{future::Future, pin::Pin, task::Poll};
+
+#[allow(unused_imports)]
+use futures::{AsyncRead, AsyncWrite};
+use multistream_select::{
+    dialer_select_proto, listener_select_proto,
+    verif::{decode_message, encode_message, Msg},
+    Negotiated, NegotiationError, ProtocolError, Version,
+};
+use rand::Rng;
+use vcommon::{exec::Det, json, pipe::PipeEnd, Out, Value};
+
+fn varint(mut v: u64, out: &mut Vec<u8>) {
+    loop {
+        let b = (v & 0x7f) as u8;
+        v >>= 7;
+        if v == 0 {
+            out.push(b);
+            return;
+        }
+        out.push(b | 0x80);
+    }
+}
+
+fn perr(e: &ProtocolError) -> String {
+    match e {
+        ProtocolError::IoError(e) => format!("io:{:?}", e.kind()),
+        ProtocolError::InvalidMessage => "InvalidMessage".into(),
+        ProtocolError::InvalidProtocol => "InvalidProtocol".into(),
+        ProtocolError::TooManyProtocols => "TooManyProtocols".into(),
+    }
+}
+
+fn name(len: usize, salt: usize) -> String {
+    // '/' + (len-1) characters from a protocol-name alphabet
+    let alpha = b"abcdefghijklmnopqrstuvwxyzABCDEFGHIJKLMNOPQRSTUVWXYZ0123456789/.-_";
+    let mut s = String::from("/");
+    for i in 1..len.max(1) {
+        s.push(alpha[(i * 7 + salt * 13) % alpha.len()] as char);
+    }
+    s
+}
+
+fn describe(m: &Msg) -> Value {
+    match m {
+        Msg::Header => json!({"kind": "Header", "n": 0}),
+        Msg::Protocol(p) => json!({"kind": "Protocol", "n": 1, "len": p.len()}),
+        Msg::ListProtocols => json!({"kind": "Ls", "n": 0}),
+        Msg::Protocols(ps) => json!({"kind": "Protocols", "n": ps.len(), "sum": ps.iter().map(|p| p.len()).sum::<usize>() % 1_000_000}),
+        Msg::NotAvailable => json!({"kind": "Na", "n": 0}),
+    }
+}
+
+fn rt(out: &mut Out, m: Msg) {
+    let d = describe(&m);
+    let r = vcommon::guard(|| {
+        let enc = encode_message(&m).map_err(|e| perr(&e))?;
+        let dec = decode_message(&enc).map_err(|e| perr(&e))?;
+        Ok::<_, String>((enc.len(), dec))
+    });
+    let v = match r {
+        Ok(Ok((n, dec))) => json!({"t": "rt", "msg": d, "enc_len": n, "res": if dec == m { "same" } else { "diff" }, "err": "-", "got": describe(&dec)}),
+        Ok(Err(e)) => json!({"t": "rt", "msg": d, "enc_len": 0, "res": "err", "err": e, "got": {"kind": "-", "n": 0}}),
+        Err(p) => json!({"t": "rt", "msg": d, "res": "panic", "panic": p}),
+    };
+    out.ev(v);
+}
+
+/// hand-built `ls` response body: `count` names, name i is "/p<i>" unless i == bad_at
+fn dec_case(out: &mut Out, count: usize, bad_at: usize, bad: &str, terminator: bool) {
+    let mut body = vec![];
+    for i in 1..=count {
+        let mut nm = format!("/p{i}").into_bytes();
+        let mut declared = nm.len() + 1;
+        let mut nl = true;
+        if i == bad_at {
+            match bad {
+                "noslash" => nm[0] = b'p',
+                "empty" => {
+                    nm.clear();
+                    declared = 0;
+                    nl = false;
+                }
+                "overlong" => declared += 50_000,
+                "no_nl" => nl = false,
+                "utf8" => nm.push(0xff),
+                _ => panic!("bad {bad}"),
+            }
+            if bad == "utf8" {
+                declared = nm.len() + 1;
+            }
+        }
+        varint(declared as u64, &mut body);
+        body.extend_from_slice(&nm);
+        if nl {
+            body.push(b'\n');
+        } else if bad == "no_nl" && i == bad_at {
+            body.push(b'x');
+        }
+    }
+    if terminator {
+        body.push(b'\n');
+    }
+    let r = vcommon::guard(|| decode_message(&body));
+    let res = match r {
+        Ok(Ok(m)) => json!({"ok": true, "panic": false, "err": "-", "got": describe(&m)}),
+        Ok(Err(e)) => json!({"ok": false, "panic": false, "err": perr(&e), "got": {"kind": "-", "n": 0}}),
+        Err(p) => json!({"ok": false, "panic": true, "err": p, "got": {"kind": "-", "n": 0}}),
+    };
+    out.ev(json!({"t": "dec", "count": count, "bad_at": bad_at, "bad": bad, "term": terminator, "len": body.len(), "res": res}));
+}
+
+/// single-line bodies: "<first><rest>\n"
+fn line_case(out: &mut Out, body: &[u8], class: &str) {
+    let r = vcommon::guard(|| decode_message(body));
+    let res = match r {
+        Ok(Ok(m)) => json!({"ok": true, "panic": false, "err": "-", "got": describe(&m)}),
+        Ok(Err(e)) => json!({"ok": false, "panic": false, "err": perr(&e), "got": {"kind": "-", "n": 0}}),
+        Err(p) => json!({"ok": false, "panic": true, "err": p, "got": {"kind": "-", "n": 0}}),
+    };
+    out.ev(json!({"t": "line", "class": class, "len": body.len(), "res": res}));
+}
+
+type Fut = Pin<Box<dyn Future<Output = Result<(String, Negotiated<PipeEnd>), NegotiationError>>>>;
+
+fn settle<T>(det: &Det, mut f: impl FnMut(&mut std::task::Context<'_>) -> Poll<T>) -> Option<T> {
+    for _ in 0..300 {
+        let before = det.wakes();
+        match f(&mut det.cx()) {
+            Poll::Ready(v) => return Some(v),
+            Poll::Pending => {
+                if det.wakes() == before {
+                    return None;
+                }
+            }
+        }
+    }
+    None
+}
+
+fn frame(body: &[u8]) -> Vec<u8> {
+    let mut v = vec![];
+    varint(body.len() as u64, &mut v);
+    v.extend_from_slice(body);
+    v
+}
+
+/// split a captured byte stream into frames: (prefix bytes, declared len, decoded message)
+fn parse_wire(mut b: &[u8]) -> Vec<Value> {
+    let mut frames = vec![];
+    while !b.is_empty() && frames.len() < 16 {
+        let mut len: u64 = 0;
+        let mut plen = 0;
+        loop {
+            if plen >= b.len() || plen >= 9 {
+                frames.push(json!({"plen": plen, "len": 0, "trunc": true, "msg": {"kind": "-", "n": 0}}));
+                return frames;
+            }
+            let x = b[plen];
+            len |= ((x & 0x7f) as u64) << (7 * plen);
+            plen += 1;
+            if x & 0x80 == 0 {
+                break;
+            }
+        }
+        let len = len as usize;
+        if b.len() < plen + len {
+            frames.push(json!({"plen": plen, "len": len, "trunc": true, "msg": {"kind": "-", "n": 0}}));
+            return frames;
+        }
+        let body = &b[plen..plen + len];
+        let m = match vcommon::guard(|| decode_message(body)) {
+            Ok(Ok(m)) => describe(&m),
+            Ok(Err(e)) => json!({"kind": format!("err:{}", perr(&e)), "n": 0}),
+            Err(p) => json!({"kind": "panic", "n": 0, "msg": p}),
+        };
+        frames.push(json!({"plen": plen, "len": len, "trunc": false, "msg": m}));
+        b = &b[plen + len..];
+    }
+    frames
+}
+
+/// what the real listener writes when asked `ls` (and a rejected / accepted proposal)
+fn wire_listener(out: &mut Out, nprotos: usize, namelen: usize) {
+    let pl: Vec<String> = (0..nprotos).map(|i| name(namelen, i)).collect();
+    let (a, b, ctl) = vcommon::pipe::pipe(true);
+    ctl.with(1, |d| d.keep_log = true);
+    let mut fut: Fut = Box::pin(listener_select_proto(b, pl.clone()));
+    let det = Det::new();
+    let mut input = frame(b"/multistream/1.0.0\n");
+    input.extend(frame(b"ls\n"));
+    input.extend(frame(b"/definitely/not/supported\n"));
+    if let Some(p) = pl.first() {
+        input.extend(frame(format!("{p}\n").as_bytes()));
+    }
+    ctl.inject(0, &input);
+    let r = vcommon::guard(|| settle(&det, |cx| fut.as_mut().poll(cx)));
+    let outcome = match &r {
+        Ok(Some(Ok((p, _)))) => json!({"r": "ok", "plen": p.len()}),
+        Ok(Some(Err(NegotiationError::Failed))) => json!({"r": "failed"}),
+        Ok(Some(Err(NegotiationError::ProtocolError(e)))) => json!({"r": "error", "err": perr(e)}),
+        Ok(None) => json!({"r": "pending"}),
+        Err(p) => json!({"r": "panic", "msg": p}),
+    };
+    let frames = parse_wire(&ctl.take_log(1));
+    // size of the ls response body the listener has to send
+    let ls_body: usize = pl.iter().map(|p| p.len() + 1 + if p.len() + 1 < 128 { 1 } else { 2 }).sum::<usize>() + 1;
+    out.ev(json!({"t": "wire", "who": "listener", "nprotos": nprotos, "namelen": namelen, "ls_body": ls_body, "outcome": outcome, "frames": frames}));
+    drop(a);
+}
+
+/// what the real dialer writes (header + proposal), for protocol names of a given length
+fn wire_dialer(out: &mut Out, namelen: usize, lazy: bool) {
+    let p = name(namelen, 3);
+    let (a, b, ctl) = vcommon::pipe::pipe(true);
+    ctl.with(0, |d| d.keep_log = true);
+    let mut fut: Fut = Box::pin(dialer_select_proto(a, vec![p.clone()], if lazy { Version::V1Lazy } else { Version::V1 }));
+    let det = Det::new();
+    let r = vcommon::guard(|| settle(&det, |cx| fut.as_mut().poll(cx)));
+    let mut keep = None;
+    let outcome = match r {
+        Ok(Some(Ok((_, mut io)))) => {
+            // lazy: the frames go out with the first flush
+            let _ = vcommon::guard(|| settle(&det, |cx| Pin::new(&mut io).poll_flush(cx)));
+            keep = Some(io);
+            json!({"r": "ok"})
+        }
+        Ok(Some(Err(NegotiationError::Failed))) => json!({"r": "failed"}),
+        Ok(Some(Err(NegotiationError::ProtocolError(e)))) => json!({"r": "error", "err": perr(&e)}),
+        Ok(None) => json!({"r": "pending"}),
+        Err(p) => json!({"r": "panic", "msg": p}),
+    };
+    let frames = parse_wire(&ctl.take_log(0));
+    out.ev(json!({"t": "wire", "who": "dialer", "lazy": lazy, "namelen": namelen, "outcome": outcome, "frames": frames}));
+    drop(keep);
+    drop(b);
+}
+
+fn records(out: &mut Out, level: u64) {
+    // ---- round trips
+    rt(out, Msg::Header);
+    rt(out, Msg::ListProtocols);
+    rt(out, Msg::NotAvailable);
+    let lens: &[usize] = if level >= 2 {
+        &[1, 2, 3, 19, 20, 126, 127, 128, 129, 1000, 16381, 16382, 16383, 16384, 40000]
+    } else {
+        &[1, 2, 19, 126, 127, 128, 16382, 16383, 16384]
+    };
+    for &l in lens {
+        for salt in 0..(if level >= 2 { 4 } else { 2 }) {
+            rt(out, Msg::Protocol(name(l, salt)));
+        }
+    }
+    for &k in &[0usize, 1, 2, 3, 10, 999, 1000, 1001, 1002, 2500] {
+        for &l in &[1usize, 2, 5, 126, 127, 128] {
+            if k * l > 400_000 {
+                continue;
+            }
+            rt(out, Msg::Protocols((0..k).map(|i| name(l, i)).collect()));
+        }
+    }
+    // ---- hand-built ls responses
+    for &count in &[0usize, 1, 2, 999, 1000, 1001, 1002, 3000] {
+        dec_case(out, count, 0, "-", true);
+        dec_case(out, count, 0, "-", false);
+        if count > 0 {
+            for bad in ["noslash", "empty", "overlong", "no_nl", "utf8"] {
+                for at in [1, count / 2 + 1, count] {
+                    dec_case(out, count, at, bad, true);
+                }
+            }
+        }
+    }
+    // ---- single-line bodies
+    line_case(out, b"/multistream/1.0.0\n", "header");
+    line_case(out, b"na\n", "na");
+    line_case(out, b"ls\n", "ls");
+    line_case(out, b"/echo/1.0.0\n", "proto");
+    line_case(out, b"echo/1.0.0\n", "noslash");
+    line_case(out, b"\n", "emptyls");
+    line_case(out, b"", "empty");
+    line_case(out, b"/echo/1.0.0", "no_nl");
+    line_case(out, b"na", "no_nl");
+    line_case(out, b"/\xff\xfe\n", "utf8");
+    line_case(out, b"x\n", "noslash");
+    // ---- what the real endpoints put on the wire
+    for &n in &[0usize, 1, 2, 50, 999, 1000, 1001, 1500] {
+        for &l in &[2usize, 8, 126, 127, 128, 200] {
+            if level < 2 && l > 8 && n > 50 {
+                continue;
+            }
+            wire_listener(out, n, l);
+        }
+    }
+    for &l in &[2usize, 126, 127, 128, 16382, 16383, 16384, 20000] {
+        wire_dialer(out, l, false);
+        wire_dialer(out, l, true);
+    }
+}
+
+// ------------------------------------------------------------------ hostile input through the public API
+
+/// {"role":"listener"|"dialer"|"lazy","case":..,"input":[bytes] | "seed","chunks":[..],"eof":bool}
+fn hostile_run(out: &mut Out, sched: &Value) {
+    let role = vcommon::s(sched, "role");
+    let input: Vec<u8> = sched["input"].as_array().unwrap().iter().map(|x| x.as_u64().unwrap() as u8).collect();
+    let expect = sched.get("expect").and_then(|x| x.as_str()).unwrap_or("any").to_string();
+    out.reset_with(json!({"role": role, "expect": expect, "n": input.len()}), sched);
+    let (a, b, ctl) = vcommon::pipe::pipe(true);
+    let det = Det::new();
+    // the code under test owns end 0; the hostile peer is the driver injecting into direction 1
+    let mut fut: Fut = match role.as_str() {
+        "listener" => Box::pin(listener_select_proto(a, vec!["/a".to_string(), "/b".to_string()])),
+        "dialer" => Box::pin(dialer_select_proto(a, vec!["/a".to_string(), "/b".to_string()], Version::V1)),
+        _ => Box::pin(dialer_select_proto(a, vec!["/a".to_string()], Version::V1Lazy)),
+    };
+    let mut io: Option<Negotiated<PipeEnd>> = None;
+    let mut done = false;
+    let mut chunks: Vec<usize> = sched["chunks"].as_array().map(|a| a.iter().map(|x| x.as_u64().unwrap() as usize).collect()).unwrap_or_default();
+    chunks.push(usize::MAX);
+    let mut pos = 0;
+    let mut peer = Some(b);
+    let step = |fut: &mut Fut, io: &mut Option<Negotiated<PipeEnd>>, done: &mut bool, out: &mut Out| {
+        if !*done {
+            match vcommon::guard(|| settle(&det, |cx| fut.as_mut().poll(cx))) {
+                Ok(Some(Ok((p, s)))) => {
+                    *done = true;
+                    *io = Some(s);
+                    out.ev(json!({"e": "res", "r": "ok", "p": p}));
+                }
+                Ok(Some(Err(NegotiationError::Failed))) => {
+                    *done = true;
+                    out.ev(json!({"e": "res", "r": "failed"}));
+                }
+                Ok(Some(Err(NegotiationError::ProtocolError(e)))) => {
+                    *done = true;
+                    out.ev(json!({"e": "res", "r": "error", "err": perr(&e)}));
+                }
+                Ok(None) => out.ev(json!({"e": "pending"})),
+                Err(p) => {
+                    *done = true;
+                    out.ev(json!({"e": "panic", "msg": p, "at": "select"}));
+                }
+            }
+        } else if let Some(s) = io.as_mut() {
+            // use the stream like an application would: read; after an error once more; then flush and close
+            let mut buf = [0u8; 32];
+            for op in ["read", "read", "flush", "close"] {
+                let r = vcommon::guard(|| {
+                    settle(&det, |cx| match op {
+                        "read" => Pin::new(&mut *s).poll_read(cx, &mut buf),
+                        "flush" => Pin::new(&mut *s).poll_flush(cx).map_ok(|_| 0),
+                        _ => Pin::new(&mut *s).poll_close(cx).map_ok(|_| 0),
+                    })
+                });
+                match r {
+                    Ok(Some(Ok(n))) => out.ev(json!({"e": "io", "op": op, "r": "ok", "n": n})),
+                    Ok(Some(Err(e))) => out.ev(json!({"e": "io", "op": op, "r": "err", "kind": format!("{:?}", e.kind())})),
+                    Ok(None) => out.ev(json!({"e": "io", "op": op, "r": "pending"})),
+                    Err(p) => {
+                        out.ev(json!({"e": "panic", "msg": p, "at": op}));
+                        *io = None;
+                        return;
+                    }
+                }
+            }
+        }
+    };
+    step(&mut fut, &mut io, &mut done, out);
+    for c in chunks {
+        if pos >= input.len() {
+            break;
+        }
+        let n = c.min(input.len() - pos);
+        ctl.inject(1, &input[pos..pos + n]);
+        pos += n;
+        out.ev(json!({"e": "feed", "n": n}));
+        step(&mut fut, &mut io, &mut done, out);
+    }
+    if sched.get("eof").and_then(|x| x.as_bool()).unwrap_or(true) {
+        peer = None; // the hostile peer hangs up
+        out.ev(json!({"e": "hangup"}));
+        step(&mut fut, &mut io, &mut done, out);
+        step(&mut fut, &mut io, &mut done, out);
+    }
+    out.ev(json!({"e": "end", "done": done}));
+    drop(peer);
+}
+
+fn b2v(b: &[u8]) -> Vec<u64> {
+    b.iter().map(|x| *x as u64).collect()
+}
+
+fn hostile_enum(out: &mut Out) {
+    let hdr = frame(b"/multistream/1.0.0\n");
+    let cat = |parts: &[&[u8]]| -> Vec<u8> { parts.iter().flat_map(|p| p.iter().cloned()).collect() };
+    let mut big = vec![];
+    varint(16383, &mut big);
+    big.extend(std::iter::repeat(b'x').take(16383));
+    let mut toobig = vec![0xff, 0xff, 0x01]; // 3-byte length prefix (32767)
+    toobig.extend(std::iter::repeat(b'x').take(40));
+    let mut many = vec![];
+    for i in 0..1001 {
+        let nm = format!("/p{i}\n");
+        varint(nm.len() as u64, &mut many);
+        many.extend_from_slice(nm.as_bytes());
+    }
+    many.push(b'\n');
+    let cases: Vec<(&str, Vec<u8>, &str)> = vec![
+        ("oversize_first", toobig.clone(), "error"),
+        ("oversize_after_header", cat(&[&hdr, &toobig]), "error"),
+        ("max_len_garbage", cat(&[&hdr, &big]), "error"),
+        ("noslash_name", cat(&[&hdr, &frame(b"a\n")]), "error"),
+        ("too_many_protocols", cat(&[&hdr, &frame(&many)]), "error"),
+        ("zero_len_frame", cat(&[&hdr, &frame(b"")]), "error"),
+        ("wrong_header", frame(b"/multistream/2.0.0\n"), "error"),
+        ("truncated_len", vec![0x85], "any"),
+        ("truncated_body", vec![0x13, b'/', b'm'], "any"),
+        ("nothing", vec![], "failed"),
+        ("na_only", cat(&[&hdr, &frame(b"na\n")]), "any"),
+        ("ls_only", cat(&[&hdr, &frame(b"ls\n")]), "any"),
+    ];
+    for role in ["listener", "dialer", "lazy"] {
+        for (case, input, expect) in &cases {
+            // a lazy dialer settles before reading anything: its outcome is `ok`, errors show on the stream
+            let exp = if role == "lazy" { "any" } else { expect };
+            for chunks in [vec![], vec![1], vec![1, 1, 1], vec![2, 17], vec![19, 1, 1]] {
+                hostile_run(out, &json!({"role": role, "case": case, "expect": exp, "input": b2v(input), "chunks": chunks}));
+            }
+        }
+    }
+}
+
+fn hostile_random(out: &mut Out, seed: u64, runs: u64) {
+    let mut rng = vcommon::rng(seed ^ 0x15_15);
+    let hdr = frame(b"/multistream/1.0.0\n");
+    for _ in 0..runs {
+        let role = ["listener", "dialer", "lazy"][rng.gen_range(0..3)];
+        let mut input = vec![];
+        if rng.gen_bool(0.6) {
+            input.extend_from_slice(&hdr);
+        }
+        let style = rng.gen_range(0..4);
+        let n = rng.gen_range(0..80);
+        for _ in 0..n {
+            input.push(match style {
+                0 => rng.gen(),
+                1 => {
+                    let a = b"/\nnals\x03\x02\x13a";
+                    a[rng.gen_range(0..a.len())]
+                }
+                2 => rng.gen_range(0..8),
+                _ => {
+                    if rng.gen_bool(0.2) {
+                        rng.gen()
+                    } else {
+                        let a = b"/a\n/b\n\x03\x03na\n\x03ls\n";
+                        a[rng.gen_range(0..a.len())]
+                    }
+                }
+            });
+        }
+        let chunks: Vec<usize> = (0..rng.gen_range(0..10)).map(|_| rng.gen_range(1..=12)).collect();
+        hostile_run(out, &json!({"role": role, "case": "random", "expect": "any", "input": b2v(&input), "chunks": chunks, "eof": rng.gen_bool(0.8)}));
+    }
+}
+
+pub fn main(a: &vcommon::Args) {
+    if std::env::var("VERIF_LOUD").is_err() {
+        vcommon::quiet_panics();
+    }
+    match a.get(0) {
+        "records" => {
+            let mut out = Out::create(a.get(2));
+            records(&mut out, a.num(1));
+            println!("records={}", out.events);
+            out.finish();
+        }
+        "hostile" => match a.get(1) {
+            "replay" => {
+                let scheds = vcommon::read_schedules(a.get(2));
+                let mut out = Out::create(a.get(3));
+                for s in &scheds {
+                    hostile_run(&mut out, s);
+                }
+                println!("runs={} events={}", out.run, out.events);
+                out.finish();
+            }
+            "enum" => {
+                let mut out = Out::create(a.get(2));
+                hostile_enum(&mut out);
+                println!("runs={} events={}", out.run, out.events);
+                out.finish();
+            }
+            "random" => {
+                let mut out = Out::create(a.get(4));
+                hostile_random(&mut out, a.num(2), a.num(3));
+                println!("runs={} events={}", out.run, out.events);
+                out.finish();
+            }
+            m => panic!("hostile mode {m}"),
+        },
+        m => panic!("msg mode {m}"),
+    }
 }
